@@ -39,13 +39,13 @@ def negative_configs():
     jo = ["-DTLA-Library=" + decl_dir]
     run = "N = 3 Memo = %s CycleGuard = %s ResetOnUnwind = %s Sweep = %s LeafKey = \"mixed\" MaxStack = 5 MaxCalls = %d MaxFail = %d MaxSpecial = %d MemoKey = \"%s\" OnlyDags = %s OnlyCyclic = FALSE"
     inv = ["ExactlyOnce", "RunCompletes", "TermCorrect", "CyclicRejected", "AcyclicAccepted", "NoSpuriousRecursive", "StackBounded", "FailureReported"]
-    props = ["NoReexec", "Quiescent", "FinishedStays"]
+    props = ["NoReexec", "Quiescent", "FinishedStays", "RefinesAbs"]
     jobs = [
         ("MPRun pinned design (no cycle guard, no sweep)", "MPRun", run % ("TRUE", "FALSE", "FALSE", "FALSE", 1, 0, 0, "flag", "FALSE"), inv, props, None, (), False),
-        ("MPRun without memoisation", "MPRun", run % ("FALSE", "TRUE", "TRUE", "TRUE", 1, 0, 0, "flag", "TRUE"), inv, props, {"ExactlyOnce", "NoReexec", "Quiescent"}, (), False),
+        ("MPRun without memoisation", "MPRun", run % ("FALSE", "TRUE", "TRUE", "TRUE", 1, 0, 0, "flag", "TRUE"), inv, props, {"ExactlyOnce", "NoReexec", "Quiescent", "RefinesAbs"}, (), False),
         ("MPRun cycle guard never reset after an error", "MPRun", run % ("TRUE", "TRUE", "FALSE", "TRUE", 2, 1, 1, "flag", "TRUE"), inv, props, {"NoSpuriousRecursive"}, (), False),
         ("MPRun without the sweep (unread reference never runs)", "MPRun", run % ("TRUE", "TRUE", "TRUE", "FALSE", 1, 0, 1, "flag", "TRUE"), inv, props, {"RunCompletes"}, (), False),
-        ("MPRun memo keyed on a non-None result", "MPRun", run % ("TRUE", "TRUE", "TRUE", "TRUE", 2, 0, 1, "result", "TRUE"), inv, props, {"ExactlyOnce", "NoReexec", "Quiescent"}, (), False),
+        ("MPRun memo keyed on a non-None result", "MPRun", run % ("TRUE", "TRUE", "TRUE", "TRUE", 2, 0, 1, "result", "TRUE"), inv, props, {"ExactlyOnce", "NoReexec", "Quiescent", "RefinesAbs"}, (), False),
         ("MPHeap accumulate without copy", "MPHeap", "MaxObj = 3 MaxHist = 4 CopyBeforeAccumulate = FALSE FuzzyProducersClamp = TRUE", ["FuzzyInRange"], ["Immutable"], {"Immutable"}, (), True),
         ("MPHeap fuzzy producers do not clamp", "MPHeap", "MaxObj = 3 MaxHist = 4 CopyBeforeAccumulate = TRUE FuzzyProducersClamp = FALSE", ["FuzzyInRange"], ["Immutable"], {"FuzzyInRange", "Immutable"}, (), True),
         ("MPValidate without the pre-pass", "MPValidate", "PrepassAll = FALSE CleanersTotal = TRUE AllKinds = FALSE Pairs = FALSE",
